@@ -446,7 +446,7 @@ def jobs(tier, seed):
                     out.append({"harness": "treeinfo_00", "params": {"arch": arch, "with_variant": wv, "with_discnum": wd}})
     fx = _fixtures()
     for i, (kind, rel) in enumerate(fx):
-        if big or kind != "treeinfo" or (i + seed) % 4 == 0:
+        if True:            # every shipped fixture, in both tiers (about a second each)
             out.append({"harness": "fixture_idempotent", "params": {"kind": kind, "rel": rel}, "validate_every": 1})
     return out
 
@@ -462,7 +462,7 @@ META = {
         "pre-productmd treeinfo: the documented [general] mapping only; product-specific heuristics (names starting with 'Red Hat Enterprise Linux', 'Fedora', 'CentOS', ...; RHEL 3-6 conventions) "
         "are exercised by the shipped fixtures only",
         "shipped historical fixtures are concrete: they are executed under the interpreter and natively with the idempotence oracle (ordinary execution, not a solver result); "
-        "the quick tier takes every fourth treeinfo fixture (rotating with VERIF_SEED) and all JSON fixtures, the thorough tier all of them",
+        "both tiers run all of them",
         "rpms 0.x documents: see C10 (same readers)",
         "JSON / INI text layers replaced by the DocText stubs",
     ],
